@@ -19,6 +19,11 @@ POST = ['FUNCTION FN%(X%)', '  FN% = X% + 1', 'END FUNCTION', 'FUNCTION FS$(X$)'
         'FUNCTION FD#(X#)', '  FD# = X# * 2', 'END FUNCTION', 'SUB SN(X#)', 'END SUB']
 
 
+BUILTIN_SIGS = [("LEN", "s"), ("UCASE$", "s"), ("LCASE$", "s"), ("LTRIM$", "s"), ("RTRIM$", "s"), ("LEFT$", "sn"), ("RIGHT$", "sn"), ("MID$", "sn"),
+                ("MID$", "snn"), ("INSTR", "ss"), ("INSTR", "nss"), ("STR$", "n"), ("VAL", "s"), ("CHR$", "n"), ("SPACE$", "n"), ("MKD$", "n"),
+                ("CVD", "s"), ("ENVIRON$", "s")]
+
+
 def bcall(n, *args):
     return {"k": "bcall", "n": n, "args": list(args)}
 
@@ -61,6 +66,15 @@ def exprs(tier, rng):
             d1.append(bcall("INSTR", a, b))
         d1.append(bcall("MID$", a, lit("I", 1), lit("I", 1)))
         d1.append(idx("AR", "I", [a]))
+    # every leaf at every parameter position of every built-in (the other positions hold a well-kinded argument)
+    nat = {"s": var("S", "$"), "n": var("A", "I")}
+    for (name, ps) in BUILTIN_SIGS:
+        if name == "LEN":
+            continue          # LEN of a numeric VARIABLE is legal (its size in bytes): not a kind question
+        for pos in range(len(ps)):
+            for a in L:
+                args = [a if j == pos else nat[ps[j]] for j in range(len(ps))]
+                d1.append(bcall(name, *args))
     d2 = []
     n2 = 6000 if tier == "thorough" else 700
     for _ in range(n2):
